@@ -93,9 +93,18 @@ Lemma greedy_merge_witness :
   find_dollar (s2l "$(x)$(y)") = Some ([], s2l "x)$(y", [], []).
 Proof. vm_compute. reflexivity. Qed.
 
+(** regression for 8a189aa: a backquote command that does not plan yields the empty string, in its own place *)
+Example dot_example :
+  let W := world_of [] [([120], Some (s2l "abc")); (s2l "ls >", None)] in
+  dot_loop 5 W (s2l "a`x`b`ls >`c") [] [] = Ok (s2l "aabcbc", [[120]; s2l "ls >"])
+  /\ dot_collect W [(TBq, s2l "ls >"); (TBq, [120]); (TNone, s2l "z")] 0 []
+     = Ok ([(0%nat, []); (1%nat, s2l "abc")], [s2l "ls >"; [120]]).
+Proof. split; vm_compute; reflexivity. Qed.
+
 Print Assumptions splice_partial.
 Print Assumptions unplannable_empty.
 Print Assumptions template_kept.
 Print Assumptions whitespace_witness.
 Print Assumptions full_refuted.
 Print Assumptions greedy_merge_witness.
+Print Assumptions dot_example.
